@@ -179,6 +179,16 @@ def allResolve (scopes : List Scope) (e : Node) : SRes Unit :=
     | some (q, cn) => (resolveCol scopes q cn).map (fun _ => ())
     | none => .ok ()) ()
 
+/-- what `*` (no qualifier parts) or `q.*` stands for at one level: every column of every relation of the level,
+or of the relations called `q`, in from-clause order then declaration order -/
+def starOf (level : Scope) (parts : List String) : SRes (List ColInfo) :=
+  match parts with
+  | [] => .ok (level.flatMap (·.cols))
+  | qs =>
+    let q := qs.getLastD ""
+    let rels := level.filter (·.qual == q)
+    if rels.isEmpty then .error (.qualifierMissing q) else .ok (rels.flatMap (·.cols))
+
 /-- a column alias list `AS t(a, b)` / `WITH t(a, b) AS` renames the first columns of the relation -/
 def applyColNames (names : List String) (cols : List ColInfo) : List ColInfo :=
   (cols.zipIdx).map (fun (ci, i) => match names[i]? with
@@ -311,13 +321,9 @@ def analyzeLevel (c : Cat) : Nat → List (String × List ColInfo) → List Scop
       if !rt.isKind "ResTarget" then pure acc else
       let v := rt.get "Val"
       let alias := (rt.get "Name").strOpt
-      if v.isKind "ColumnRef" && hasStarRef v then
-        match colRefParts v with
-        | [] => pure (acc ++ retScope.flatMap (·.cols))
-        | qs =>
-          let q := qs.getLastD ""
-          let rels := retScope.filter (·.qual == q)
-          if rels.isEmpty then .error (.qualifierMissing q) else pure (acc ++ rels.flatMap (·.cols))
+      if v.isKind "ColumnRef" && hasStarRef v then do
+        let cs ← starOf retScope (colRefParts v)
+        pure (acc ++ cs)
       else if v.isKind "ColumnRef" then
         match colRefName v with
         | none => .error (.unsupported "column reference with more than three parts")
